@@ -50,8 +50,12 @@ type Spec struct {
 	// Mode "shared": ONE scope provider (one subscriber transport factory)
 	// serves all of Subs at the same time; valid publishes interleaved on all
 	// their topics; Subs[0] is unsubscribed mid-way.
-	Mode string    `json:"mode,omitempty"`
-	Subs []SubSpec `json:"subs,omitempty"`
+	// Mode "prompt" (NATS): the subscriber's connection goes through a relay
+	// that delays client->server bytes by RelayMs; the first publishes come
+	// from another connection immediately after Subscribe returned.
+	RelayMs int       `json:"relay_ms,omitempty"`
+	Mode    string    `json:"mode,omitempty"`
+	Subs    []SubSpec `json:"subs,omitempty"`
 }
 
 // SubSpec is one subscription of a shared-provider sequence.
@@ -294,6 +298,8 @@ type seqRun struct {
 	pubX, capX         *scopePubs
 	cap                *capFactory
 	subs               []*subscriber // shared mode
+	onSubscribed       func()        // prompt mode
+	relay              *rig.DelayRelay
 
 	msgs    []*msg
 	byCid   map[string]*msg
@@ -370,6 +376,9 @@ func shapeOf(s *Spec) string {
 	}
 	if s.Mode == "backpressure" && s.Probe == "" {
 		fl += "+backpressure"
+	}
+	if s.Mode == "prompt" && s.Probe == "" {
+		fl += "+prompt"
 	}
 	op := s.Op
 	if s.Mode == "shared" && s.Probe == "" {
@@ -484,6 +493,9 @@ func (q *seqRun) subscribeVia(name string, prov *frugal.FScopeProvider, op, user
 		}
 	case <-time.After(waitBound):
 		return nil, fmt.Errorf("Subscribe did not return within %v", waitBound)
+	}
+	if q.onSubscribed != nil {
+		q.onSubscribed() // first thing after Subscribe returned nil
 	}
 	// the worker goroutines must be identifiable in a dump (by the function
 	// they run and the goroutine that created them), else the dump-based
@@ -1187,6 +1199,9 @@ func (q *seqRun) cleanup() {
 	for _, f := range q.tapStops {
 		f()
 	}
+	if q.relay != nil {
+		defer q.relay.Stop()
+	}
 	for _, l := range []*link{q.pubL, q.aL, q.bL, q.tapL} {
 		l.close()
 	}
@@ -1237,6 +1252,8 @@ func runSeq(b *bus, s *Spec) *Result {
 		q.runShared()
 	} else if s.Mode == "backpressure" && s.Probe == "" {
 		q.runBackpressure()
+	} else if s.Mode == "prompt" && s.Probe == "" {
+		q.runPrompt()
 	} else {
 		q.run()
 	}
@@ -1295,6 +1312,102 @@ func (q *seqRun) waitBrokerSubscriptions(tapTopics []string, xs []*subscriber) b
 		}
 	}
 	return true
+}
+
+// runPrompt (NATS): publisher on its own connection, subscriber's connection
+// behind a relay with a one-way latency, first publishes immediately after
+// Subscribe returned nil.  Everything published after that moment must be
+// delivered exactly once.
+func (q *seqRun) runPrompt() {
+	s := q.spec
+	var err error
+	for _, lp := range []**link{&q.pubL, &q.tapL} {
+		if *lp, err = q.bus.connect(s.Broker); err != nil {
+			q.inconclusive("broker connection failed: " + err.Error())
+			return
+		}
+	}
+	if q.relay, err = rig.StartDelayRelay(strings.TrimPrefix(q.bus.ns.URL, "nats://"), time.Duration(s.RelayMs)*time.Millisecond); err != nil {
+		q.inconclusive("relay: " + err.Error())
+		return
+	}
+	nc, err := nats.Connect("nats://"+q.relay.Addr(), nats.MaxReconnects(-1), nats.Timeout(10*time.Second))
+	if err != nil {
+		q.inconclusive("connection through the relay failed: " + err.Error())
+		return
+	}
+	q.aL = &link{nc: nc}
+	if q.topic == "" {
+		q.inconclusive("the emitted publisher did not publish on the capture transport")
+		return
+	}
+	if !q.openPublishers() {
+		return
+	}
+	if err := q.startTap(); err != nil {
+		q.inconclusive("tap: " + err.Error())
+		return
+	}
+	const first = 5
+	var perr error
+	q.onSubscribed = func() {
+		for i := 0; i < first && perr == nil; i++ {
+			_, perr = q.publishOnTopic("valid", 1)
+		}
+	}
+	q.A, err = q.subscribeVia("A", q.providerFor(q.aL), s.Op, s.User, 0)
+	q.onSubscribed = nil
+	if err != nil {
+		q.inconclusive("Subscribe(A): " + err.Error())
+		return
+	}
+	if perr == nil {
+		perr = q.steps(s.N, 1)
+	}
+	if perr == nil {
+		_, perr = q.publishOnTopic("sentinel", 1)
+	}
+	if perr != nil {
+		q.inconclusive("publish failed: " + perr.Error())
+		return
+	}
+	if !q.waitTap() {
+		q.inconclusive("the raw tap subscriber did not see everything published")
+		return
+	}
+	if st, dump := q.settle(q.A, 1); st != "complete" {
+		if st == "inconclusive" {
+			q.inconclusive(fmt.Sprintf("subscriber A did not log %d required messages within %v although its workers are alive: %v", len(q.missing(q.A)), waitBound, grepShort(dump, q.A.workerFn)))
+			return
+		}
+		miss := q.missing(q.A)
+		if miss[0].Step < first && (len(miss) <= first || st == "lost") {
+			var steps []int
+			for _, m := range miss {
+				steps = append(steps, m.Step)
+			}
+			if len(steps) > 12 {
+				steps = steps[:12]
+			}
+			q.vio("not-delivered:published-right-after-subscribe-returned", fmt.Sprintf("subscriber A never got %d of %d valid messages, starting with message %d published (from another connection) immediately after Subscribe returned nil; the subscriber's connection is healthy with a one-way latency of %d ms; later messages are delivered", len(miss), len(q.required(q.A)), miss[0].Step, s.RelayMs),
+				map[string]interface{}{"status": st, "missing_steps": steps, "missing_count": len(miss), "logged": q.A.rec.length(), "relay_client_to_server_delay_ms": s.RelayMs})
+			q.aborted = true
+			return
+		}
+		q.reportMissing(q.A, st, dump)
+		q.aborted = true
+		return
+	}
+	done := make(chan error, 1)
+	go func() { done <- q.A.sub.Unsubscribe() }()
+	select {
+	case <-done:
+	case <-time.After(waitBound):
+		q.inconclusive(fmt.Sprintf("Unsubscribe(A) did not return within %v", waitBound))
+		return
+	}
+	q.count("prompt_sequences_completed", 1)
+	q.count("sequences_completed", 1)
 }
 
 // runBackpressure (STOMP): the subscriber's connection is also used by a
